@@ -325,7 +325,9 @@ class CLexer:
             fail("invalid #line directive", pos)
             return
 
-        pp_filename = m.group(0).lstrip('"').rstrip('"')
+        # The name is what stands between the outer quotes (it may itself end
+        # in an escaped quote).
+        pp_filename = m.group(0)[1:-1]
         pos += len(m.group(0))
 
         # Consume arbitrary sequence of numeric flags after the directive
